@@ -20,10 +20,11 @@ theorem ordered_traces (w : World) (op : Op) : ∀ ep ∈ episodes w op, traceOK
   have nop : ∀ (ns : List Node) (H : List Key) (g : Nat), (∀ h ∈ H, h.group = g) → R H [] = some H := by
     intro _ H _ _; simp [R, run]
   cases op with
-  | create nf rollback =>
-    simp only [episodes, List.mem_cons, List.mem_map] at hep
-    rcases hep with e | ⟨n, _, e⟩
+  | create nf rollback deployed =>
+    simp only [episodes, List.mem_cons, List.mem_append, List.mem_map] at hep
+    rcases hep with e | ⟨n, _, e⟩ | ⟨n, _, e⟩
     · subst e; exact nodesLocked_ok _ _ _ _ _ (fun ns H h => nop ns H _ h)
+    · subst e; exact nodeOpLocked_ok _ _
     · subst e; exact nodePodLocked_ok _ _ _ (fun H _ => by simp [R, run])
   | capacity nf =>
     simp only [episodes, List.mem_singleton] at hep
@@ -151,6 +152,19 @@ theorem waitfor_graph_acyclic (eps : List Trace) (heps : ∀ ep ∈ eps, IsEpiso
   subst e
   exact (traceOK_iff ep).mp (isEpisode_ok ep (heps ep hep))
 
+/-- **no_deadlock for the whole operation alphabet.**  Any list of operations of any kind — create
+    (with its remap and rollback episodes), capacity, remove-pod, set/remove node, node resource, remove,
+    dissociate, realloc, replace, control / send / send-large / raw-engine (`workloadEach`), remap and
+    the raw helpers — each on its own store content, all their episodes running concurrently: never a
+    deadlock. -/
+theorem no_deadlock_all_operations (jobs : List (World × Op))
+    (s : List (Thread Key)) (hreach : Reach (threadsOf (jobs.flatMap fun j => episodes j.1 j.2)) s)
+    (hlive : ∃ t ∈ s, t.rest ≠ []) : ∃ s', Step s s' := by
+  apply no_deadlock _ _ s hreach hlive
+  intro ep hep
+  obtain ⟨j, _, hj⟩ := List.mem_flatMap.mp hep
+  exact ⟨j.1, j.2, ep, hj, Or.inl rfl⟩
+
 /-- the general theorem behind it (any key type, any strict partial order of ranks) -/
 theorem no_deadlock_general {K : Type} [DecidableEq K] (lt : K → K → Bool) (extra : List K → K → Bool)
     (hirr : ∀ a, lt a a = false) (htr : ∀ a b c, lt a b = true → lt b c = true → lt a c = true)
@@ -202,7 +216,7 @@ def exWorld : World :=
   { nodes := [⟨"n2", "pa", [], true, false⟩, ⟨"n1", "pb", [], true, false⟩, ⟨"n3", "pa", [], true, false⟩],
     workloads := [("w2", "n2"), ("w1", "n2"), ("w3", "n1")] }
 
-example : episodes exWorld (.create ⟨"", ["n1", "n2", "n1"], [], [], false⟩ []) =
+example : episodes exWorld (.create ⟨"", ["n1", "n2", "n1"], [], [], false⟩ [] []) =
     [[.acq ⟨0, "pa"⟩, .acq ⟨0, "pb"⟩, .rel ⟨0, "pb"⟩, .rel ⟨0, "pa"⟩]] := by
   simp only [episodes, withNodesPodLocked, withNodesLocked, sortUnique_eq]; decide
 example : episodes exWorld (.remove ["w2", "w3", "w1"]) =
